@@ -92,6 +92,7 @@ def stdGetitem (x y : Val) : Val :=
 def stdIter : Val → Option (List Val)
   | .tuple vs => some vs
   | .list vs => some vs
+  | .dict ks _ => some ks       -- iterating a dict yields its keys
   | _ => none
 
 def stdEnter : Val → Val
